@@ -270,8 +270,9 @@ def run_case(ctx, case):
                          ('data_alignment_factor', x['daf']), ('return_address_register', x['rar'])):
                 if h[k] != v:
                     ctx.fail('cie|header|%s' % k, 'entry %d (version %d): encoded %r decoded %r' % (i, x['version'], v, h[k]), case)
-            if x['version'] >= 4 and (h['address_size'] != A or h['segment_size'] != 0):
-                ctx.fail('cie|header|v4-sizes', 'got %r/%r' % (h['address_size'], h['segment_size']), case)
+            if x['version'] >= 4 and (h.get('address_size') != A or h.get('segment_size') != 0):
+                ctx.fail('cie|header|v4-sizes', 'version 4 CIE in %s: address_size / segment_size encoded %d / 0, decoded %r / %r' % (
+                    '.eh_frame' if eh else '.debug_frame', A, h.get('address_size'), h.get('segment_size')), case)
             if eh:
                 if bytes(g.augmentation_bytes) != x['augdata']:
                     ctx.fail('cie|augmentation_bytes', 'aug %r: expected %r got %r' % (x['augmentation'], x['augdata'], g.augmentation_bytes), case)
@@ -547,7 +548,7 @@ def build_case(ch, tier, kind=None):
         daf = ch.choice([-8, -4, 8, 3, -3, ch.int(-16, 16)])
         while daf == 0 or abs(daf) == caf:
             daf = daf - 1 if daf <= 0 else daf + 1
-        e = {'t': 'cie', 'fmt': ch.choice([32, 32, 32, 64]) if eh else ch.choice([32, 32, 64]), 'version': ch.choice([1, 3]) if eh else ch.choice([1, 3, 4]),
+        e = {'t': 'cie', 'fmt': ch.choice([32, 32, 32, 64]) if eh else ch.choice([32, 32, 64]), 'version': ch.choice([1, 3, 1, 3, 4]) if eh else ch.choice([1, 3, 4]),
              'aug': ch.choice(AUGS) if eh else b'', 'caf': caf, 'daf': daf, 'rar': ch.choice([0, 16, 30, 127, 128 if ch.bool() else 14, 255]),
              'pad': ch.choice([0, 0, 1, 3, 7])}
         if e['version'] == 1:
@@ -665,7 +666,7 @@ def sweep(tier):
                             lenc = FDE_ENCS[(k // 2) % len(FDE_ENCS)] | (0x10 if (k // 3) % 2 else 0)
                             if k % 7 == 3:
                                 lenc = 0xff   # DW_EH_PE_omit
-                            cie = {'t': 'cie', 'fmt': fmt, 'version': (1, 3, 4)[k % 3] if kind == 'debug_frame' else (1, 3)[k % 2], 'aug': aug, 'caf': caf, 'daf': daf,
+                            cie = {'t': 'cie', 'fmt': fmt, 'version': (1, 3, 4)[k % 3] if kind == 'debug_frame' else (1, 3, 1, 3, 4)[k % 5], 'aug': aug, 'caf': caf, 'daf': daf,
                                    'rar': 16, 'pad': k % 4, 'fde_enc': fenc, 'lsda_enc': lenc, 'pers': [0x03 | (0x90 if k % 2 else 0), 0x1234],
                                    'ops': [['def_cfa', 7, 8], ['offset', 16, 1], ['offset_extended', 200, 2]]}
                             cie2 = dict(cie, ops=[], pad=0)           # a CIE without any initial rule
